@@ -12,6 +12,7 @@ the harness): `sync.Pool` and `atomic.AddUint64` are linearizable, and a `Name` 
 -/
 import Dblib.Model.NamePool
 import Dblib.Lemmas.C18Basic
+import Dblib.Gen.Pool
 
 namespace Dblib.Props.C18
 open Dblib Dblib.NamePool Dblib.Lemmas.C18
@@ -576,5 +577,19 @@ the validator means that the recorded behaviour is not a behaviour of the model.
 theorem c18_validator_complete (f : Fmt) (ops : List Op) :
     ∃ v, validate f (history f init ops) = .ok v ∧ v.held = (exec init ops).held :=
   complete_from f ops init V.init 0 inv_init rfl
+
+/-! ## tie of the model's structural assumptions to namepool/pool.go (regenerated on every run) -/
+
+/-- the id counter is initialised to 0 and touched by exactly one other expression in the whole
+package: the atomic add of 1 that mints an id. No function reads it, stores to it or decrements it —
+the model's "minted ids are fresh because the counter only grows, one atomic step per mint". -/
+theorem c18_counter_only_minted :
+    Gen.Pool.counterAccesses =
+      [("Pool", "atomic.AddUint64(&pool.idCounter, 1)"), ("Pool", "init:0")] := by decide
+
+/-- ids travel through the sync.Pool only by `Get` in `Acquire` and `Put` in `Release` -/
+theorem c18_idpool_get_put :
+    Gen.Pool.idPoolAccesses =
+      [("Pool", "assign"), ("pool.Acquire", "call:Get"), ("pool.Release", "call:Put")] := by decide
 
 end Dblib.Props.C18
